@@ -61,6 +61,27 @@ fn main() {
     for (i, u) in w.updates.iter().enumerate() {
         println!("update {} by {} deps {:?}: {:?}", i, u.author, u.deps, Update::decode_v1(&u.v1).unwrap());
     }
+    if doc["property"] == "C06" {
+        let n = w.reps.len();
+        let a = doc["case"]["a"].as_u64().unwrap() as usize % n;
+        let mut b = doc["case"]["b"].as_u64().unwrap() as usize % n;
+        if a == b {
+            b = (a + 1) % n;
+        }
+        println!("A = rep {}, B = rep {}", a, b);
+        for round in 0..3 {
+            for (from, to) in [(a, b), (b, a)] {
+                let sv = w.reps[to].sv();
+                let bytes = w.reps[from].doc.transact().encode_state_as_update_v1(&sv);
+                println!("round {} {} -> {} (sv {:?}): {:?}", round, from, to, sv_to_vec(&sv), Update::decode_v1(&bytes).unwrap());
+                let r = w.reps[to].apply(&bytes, false);
+                let txn = w.reps[to].doc.transact();
+                println!("   -> {:?} sv {:?} blocks {:?}", r.is_ok(), sv_to_vec(&txn.state_vector()), blocks(&w.reps[to]));
+                println!("      pending {:?}", txn.store().pending_update().map(|p| format!("{:?} missing {:?}", p.update, p.missing)));
+                println!("      pending_ds {:?}", txn.store().pending_ds());
+            }
+        }
+    }
     if doc["property"] == "C02" {
         let case: vh::props::c02::Case = serde_json::from_value(doc["case"].clone()).unwrap();
         let all: Vec<usize> = (0..w.updates.len()).collect();
